@@ -151,7 +151,7 @@ func genC20(r *sim.Rand, tier string) *sim.Program {
 	}
 	add := func(task int) {
 		k := kinds[r.Intn(len(kinds))]
-		p.Add(k, task, r.Intn(1<<30)).WithB(r.Bytes(r.PickInt(1, 16, 31, 32, 33, 64, 100)))
+		p.Add(k, task, r.Intn(1<<30)).WithB(r.Bytes(r.PickInt(1, 16, 31, 32, 33, 64, 100, 300, 420)))
 	}
 	if firstAll {
 		for _, t := range r.Perm(nt) {
@@ -189,7 +189,24 @@ type c20World struct {
 	leaf          *smx509.Certificate
 }
 
-var c20UID = []byte("alice@verif")
+// c20UID is the identity every SM9 operation of every task passes: ONE buffer with spare capacity behind its
+// length, as a caller who cut it out of a larger buffer would hold it. The library must not write behind the length
+// (c20UIDIntact is checked after every run; under the race detector a write from two tasks is a report of its own).
+var c20UID = func() []byte {
+	b := make([]byte, 11, 48)
+	copy(b, "alice@verif")
+	copy(b[11:48], c20UIDSpare)
+	return b
+}()
+
+var c20UIDSpare = bytes.Repeat([]byte{0xA5}, 37)
+
+func c20UIDIntact() bool {
+	return string(c20UID) == "alice@verif" && bytes.Equal(c20UID[11:48], c20UIDSpare)
+}
+
+// c20LongPlain: 300 bytes = 10 KDF blocks (more than one 8-lane batch, not a multiple of 4: every SIMD tier has a tail)
+var c20LongPlain = derive([]byte("c20"), "long plaintext", 300)
 
 func derive(seed []byte, tag string, n int) []byte {
 	out := make([]byte, 0, n)
@@ -232,7 +249,7 @@ func newC20World(seed []byte, need map[string]bool, withArtefacts *c20World) (*c
 			if w.sm2Sig, err = ind.SignWithSM2(opReader(seed, -1), nil, []byte("fixed message")); err != nil {
 				return nil, err
 			}
-			if w.sm2Ct, err = sm2.Encrypt(opReader(seed, -2), &ind.PublicKey, []byte("fixed plaintext for decrypt"), nil); err != nil {
+			if w.sm2Ct, err = sm2.Encrypt(opReader(seed, -2), &ind.PublicKey, c20LongPlain, nil); err != nil {
 				return nil, err
 			}
 		} else {
@@ -557,6 +574,7 @@ func c20Do(w *c20World, kind string, opseed int, msg []byte) (out []byte) {
 	case "fresh.sm9parse":
 		// master keys derived from their serialised form (public key = base-point multiplication)
 		d := scalarFrom(msg, "fsp")
+		d[0] |= 0x40 // a full-width positive INTEGER: 02 20 || d is its minimal DER encoding
 		der := append([]byte{0x02, 0x20}, d...)
 		sk, err := sm9.UnmarshalSignMasterPrivateKeyASN1(der)
 		if err != nil {
@@ -677,6 +695,11 @@ func execC20(t *testing.T, p *sim.Program, c *sim.Ctx) {
 		c.OpsDone++
 	}
 	b.Close(remaining)
+	if !c20UIDIntact() {
+		c.Fail("caller-buffer-modified", -1, "sm9", "the identity buffer shared by the tasks was written to (len 11, cap 48): now %x", c20UID[:48])
+		copy(c20UID[:48], append([]byte("alice@verif"), c20UIDSpare...))
+		return
+	}
 	// sequential oracle on private fresh objects (after the concurrent phase, so that it cannot pre-initialise anything)
 	private, err := newC20World(seed, need, shared)
 	if err != nil {
